@@ -7,6 +7,9 @@ package v1
 //@ func RelativeObjectMap.FindGroupKindName(m, gk, name) (obj)
 //@   pure
 //@   trusted read-only lookup over a map of maps; used as a mathematical function of its arguments in contracts
+//@   // key discipline: see UniformObjectMap.FindGroupKindName. Callers pass names recorded in ControllerRevisions and keys of
+//@   // desiredChildMap - both relative names; that these stored names are relative is not something a caller can prove, so no
+//@   // precondition is demanded here (the discipline is enforced on the uniform map, where a relative name is wrong)
 
 //@ pred noNilRelChildren(m) = forall g api.GroupVersionKind, k string :: has(m, g) && has(m[g], k) ==> m[g][k] != nil
 
